@@ -2,7 +2,7 @@ import Wayfind.Proofs.Reachable
 import Wayfind.Model.Errors
 import Wayfind.Generated.Facts
 import Wayfind.Proofs.ParseErrors
-import Wayfind.Proofs.CheckedParser2
+import Wayfind.Proofs.CheckedParser3
 
 /-! # C07 — no input makes the router panic
 The model is written with total list operations (`take`, `drop`, `getElem?`, truncated subtraction), so totality of
@@ -21,7 +21,9 @@ ordered and inside the template.
 (5) *The parser's index arithmetic is in range* (`C07_parser_never_panics`): `Model/CheckedParser.lean` is a second,
 position-based transcription of `src/parser.rs` in which every `input[i]`, every `&input[a..b]` and every `usize`
 subtraction (`cursor - 1`, `start + group - 1`, `end - cursor`, `next_cursor - start`, `&name[1..]`, …) is an explicit
-check that yields `panic`; the theorem shows no check ever fires, for every input and every fuel (loop invariants: the
+check that yields `panic`; the theorem shows no check ever fires, for every input and every fuel, and
+`C07_parser_total` that the transcription always answers with expansions or a `TemplateError` (the fuel `(n+2)²` of the
+expander suffices: a potential `needE` bounds scan steps plus nested calls) (loop invariants: the
 range ends inside the input, `group ≤ cursor`, an open parenthesis implies `group ≥ 1`; every recorded parameter starts
 at or before the cursor). The driver runs this transcription next to the list-based model on every `parse` operation
 of every run (class `checked`), and the list-based model is compared with the real crate.
@@ -89,6 +91,10 @@ theorem C07_duplicate_ranges_in_bounds (input t n : Bytes) (f fl s sl : Nat)
 or `usize` subtraction is out of range, whatever the input (any bytes, not only UTF-8) -/
 theorem C07_parser_never_panics (input : Bytes) (site : String) : parseC input ≠ .error (.panic site) :=
   parseC_never_panics input site
+
+/-- … and it always answers: expansions, or a `TemplateError` — the fuel of the model's loops is never exhausted -/
+theorem C07_parser_total (input : Bytes) : (∃ ts, parseC input = .ok ts) ∨ (∃ e, parseC input = .error (.terr e)) :=
+  parseC_total input
 
 /-- the expander alone, on any sub-range that ends inside the input, with any fuel -/
 theorem C07_expander_never_panics (input : Bytes) (fuel start end_ : Nat) (h : end_ ≤ input.length) (site : String) :
